@@ -186,6 +186,7 @@ static int bus_cap = 64;
 static int feat_echo_diff = 0;
 static int tabchange_after = -1;    /* after that many NODETAB rows (overall) announce a table change once */
 static int tabchange_done = 0;
+static uint8_t tabchange_del[3]; static int tabchange_del_set = 0;
 static uint8_t tab_version = 1;
 static uint8_t policy[128];         /* 0 answer, 1 alt/NA, 2 never, 3 duplicate */
 /* spontaneous traffic tied to the downlink: when the n-th message of a type is seen, a prepared uplink packet is delivered (before the answer) */
@@ -243,7 +244,12 @@ NOINST int bus_config_line(int argc, char **argv) {
 	if (!strcmp(argv[1], "cap") && argc >= 3) { bus_cap = atoi(argv[2]); return 0; }
 	if (!strcmp(argv[1], "brackets") && argc >= 3) { log_rx_brackets = atoi(argv[2]); return 0; }
 	if (!strcmp(argv[1], "featecho") && argc >= 3) { feat_echo_diff = !strcmp(argv[2], "diff"); return 0; }
-	if (!strcmp(argv[1], "tabchange") && argc >= 3) { tabchange_after = atoi(argv[2]); tabchange_done = 0; return 0; }
+	if (!strcmp(argv[1], "tabchange") && argc >= 3) {
+		/* bus tabchange K [del A.B.C]: the table change is a node that dropped off the bus meanwhile */
+		tabchange_after = atoi(argv[2]); tabchange_done = 0; tabchange_del_set = 0;
+		if (argc >= 5 && !strcmp(argv[3], "del") && !parse_addr(argv[4], tabchange_del)) tabchange_del_set = 1;
+		return 0;
+	}
 	if (!strcmp(argv[1], "policy") && argc >= 4) {
 		unsigned t = strtoul(argv[2], NULL, 16); if (t >= 128) return -1;
 		policy[t] = !strcmp(argv[3], "na") ? 1 : !strcmp(argv[3], "never") ? 2 : !strcmp(argv[3], "dup") ? 3 : 0;
@@ -306,6 +312,13 @@ NOINST static void answer(long idx, const uint8_t *addr, uint8_t type, const uin
 		if (tabchange_after >= 0 && !tabchange_done && n->rows_sent_total >= tabchange_after && n->tab_iter >= 0) {
 			/* the node table changed while it was being read: the interface announces a new count */
 			tabchange_done = 1; n->tab_iter = -1;
+			if (tabchange_del_set) {
+				uint8_t self[3]; memcpy(self, n->addr, 3);
+				for (int q = 0; q < nnodes; q++) if (!memcmp(nodes[q].addr, tabchange_del, 3)) { nodes[q] = nodes[--nnodes]; break; }
+				n = find_node(self);          /* the array was compacted */
+				if (!n) return;
+				total = 1 + child_count(n);
+			}
 			rt = MSG_NODETAB_COUNT; r[0] = (uint8_t)total; rl = 1; tab_version++;
 			break;
 		}
